@@ -1,17 +1,17 @@
 #!/bin/bash
 # usage: tools/import_seeds.sh <Cxxb> <base_commit>   (copies /tmp/seed/<Cxxb>/_seed/{1,2,3} into seeded/, removes the worktree)
-T=$1; BASEC=$2; P=${T%b}
+T=$1; BASEC=$2; ROUND=${3:-2}; P=${T%[bc]}
 for n in 1 2 3; do
   S=/tmp/seed/$T/_seed/$n; D=/verif/seeded/$T-$n
   [ -d $S ] || { echo "missing $S"; continue; }
   mkdir -p $D; cp $S/patch.diff $S/demo.py $D/
-  python3 - "$S/meta.json" "$D/meta.json" "$P" "$BASEC" <<'PY'
+  python3 - "$S/meta.json" "$D/meta.json" "$P" "$BASEC" "$ROUND" <<'PY'
 import json,sys
-src,dst,p,base=sys.argv[1:]
+src,dst,p,base,rnd=sys.argv[1:]
 try: m=json.load(open(src))
 except Exception as e: m={"summary":open(src).read()}
-m["property"]=p; m["base_commit"]=base; m["round"]=2
-m["origin"]="written by an independent sub-agent that saw only the property text and a scratch worktree (second round, asked for two-site and unusual-input changes)"
+m["property"]=p; m["base_commit"]=base; m["round"]=int(rnd)
+m["origin"]="written by an independent sub-agent that saw only the property text and a scratch worktree (later round, asked for two-site, unusual-input, numeric-representation or memory-sharing changes)"
 json.dump(m,open(dst,"w"),indent=1)
 PY
 done
